@@ -180,6 +180,15 @@ def check(case, stats=None):
                         if len(sel) == len(keep) else Failure("C16:record-count:mapped-selection-after-alignment_to_interval", {"expected": len(keep), "actual": len(sel)})
                     if fail:
                         return [fail]
+                # the same function handed the stream of chunks the reader gives out: one table of intervals per chunk, none left out
+                for k in case.get("ks", [])[:2]:
+                    k = max(k, largest)
+                    got = []
+                    for iv in bnp.alignments.alignment_to_interval(bnp.open(path).read_chunks(min_chunk_size=k)):
+                        got.extend(zip(np.asarray(iv.start).tolist(), np.asarray(iv.stop).tolist(), [s for s in iv.strand.ravel().to_string()]))
+                    if got != want:
+                        return [Failure("C16:alignment_to_interval:stream-of-chunks", {"chunk_size": k, "expected_n": len(want), "actual_n": len(got),
+                                                                                   "expected": want[:5], "actual": got[:5]})]
                 iv2 = bnp.open(path, buffer_type=BamIntervalBuffer, lazy=False).read()
                 got = list(zip(np.asarray(iv2.start).tolist(), np.asarray(iv2.stop).tolist(), [s for s in iv2.strand.ravel().to_string()]))
                 if got != want:
